@@ -112,5 +112,19 @@ CLAIMS = {
          "harness (theta thresholds, _ell, the 2.0978 switch value and the size of the truncation error are not verified); convergence loops exit at the "
          "witness h=0.1. Matrices 2x2 (4x4 for half) with fixed rational entries, h a formal indeterminate. Floats are exact rationals; round-off not decided.",
     technique="real functions executed on exact truncated power series / sympy symbols; Pade order conditions against the Taylor definition; modular contracts for getEPQ/eig; bounded float sweep vs 100-digit sums"),
+ "C08": dict(
+    text="The real generator objects of SolveUnc (real-uncoupled), SolveUnc(cd_as_force)/SolveCDF and SolveExp2 (uncoupled and coupled mass) are driven on "
+         "solver instances whose integration coefficients are abstract symbols, with all forces and initial conditions symbolic: for EVERY operation sequence "
+         "of up to 4 operations (send(i,f) with 1<=i<=cur+1 incl. redo and jump-back, add-on send(-1,g)) the arrays shared with the caller equal, after "
+         "every operation and column for column up to the current step, what the real batch tsolve returns for the force history then in effect, "
+         "finalize() equals tsolve incl. acceleration, and for order=1 get_f2x(phi) (displacement and velocity) equals the change a unit add-on force "
+         "produces in the current step; order 0/1, with/without residual-flexibility block, m None/vector/matrix, d0/v0 or static_ic. Decided as "
+         "polynomial identities by sympy: fully symbolic coefficients for SolveUnc/SolveExp2-uncoupled; for the cd-as-force and coupled-mass "
+         "configurations fully symbolic for <=2 operations and, for all histories, exact in forces/ICs with the coefficient identity tested at two random "
+         "exact rational points. The complex-modes (scipy eig) generator: bounded float histories only.",
+    note="Trusted: sympy, symbolic shims, lu_solve contract. Sizes fixed (nt=4, 2-3 equations, histories <= 4 ops in the quick tier, 5 in thorough); longer "
+         "histories by the representation-invariant argument stated in evidence (not mechanised). Coefficients abstract: correctness of the coefficients "
+         "themselves is C01/C07. Floats are reals.",
+    technique="real generators executed on symbolic state (concolic shim) over all operation sequences up to a bound; representation invariant Gen(cur) vs the real batch solver as specification; sympy polynomial identities (+ random exact rational points for the rational-function configurations); bounded float histories"),
 }
 NOT_APPLICABLE = {}
